@@ -22,7 +22,7 @@ import (
 )
 
 func init() {
-	caseGens["C15"] = caseGen{count: pipeCount(20000, 150000), gen: c15Gen}
+	caseGens["C15"] = caseGen{count: pipeCount(20000, 50000), gen: c15Gen}
 }
 
 const c15Magic = 0x810b00ff
@@ -716,20 +716,24 @@ func c15GenScript(r *Rng, tier string) (*c15Script, int, int) {
 			nfr = r.Pick(0, 1, 2, 3, 5, 8)
 			nv := nfr * nchan
 			if nv > 3000 {
-				nv = r.Pick(1, 7, 3000)
+				nv = r.Pick(1, 7, 64, 300, 300, 1000, 3000)
 			}
 			if r.Chance(10) {
 				nv += r.Range(1, 3)
 			}
-			if r.Chance(6) { // at and beyond the packet / uint16 limits
+			if r.Chance(3) { // at and beyond the packet / uint16 limits
+				if r.Chance(60) {
+					op.width = 64
+					ws = 8
+				}
 				total := r.Pick(8192, 8191, 8193, 8152, 8153, 65535, 65536, 65537, 65636, 70000, 131072+40)
 				nv = (total - 40) / ws
 				if r.Bool() {
 					nv = total / ws
 				}
 			}
-			if tier != "thorough" && nv > 5000 && !r.Chance(30) {
-				nv = r.Range(4040, 4100)
+			if nv > 5000 && !r.Chance(25) { // mostly stay near the 8192-byte limit: lines of 30000 values are slow to carry around
+				nv = (8192-40)/ws + r.Range(-20, 24)
 			}
 			op.data = make([]int64, nv)
 			for i := range op.data {
